@@ -1,4 +1,407 @@
-//! C10 thread scenario under shuttle — filled in later.
+//! C10 thread scenario: clones of auto-despawn signals are moved to worker threads and dropped there while the main
+//! thread collects garbage. shuttle's seeded random scheduler decides every thread switch; yield points come from the
+//! harness and from the cfg-gated hooks inside `auto_despawn.rs` (Arc shim, before `send`, inside the collection loop).
 use crate::dsl::Program;
-pub fn explore(_seed: u64, _iters: usize, _dir: &std::path::Path) -> (serde_json::Value, Vec<(String, String)>) { (serde_json::Value::Null, Vec::new()) }
-pub fn replay(_p: &Program, _schedule: &str, _path: &str) -> i32 { 2 }
+use crate::gen::Rng;
+use bevy::prelude::*;
+use bevy_cobweb::prelude::*;
+use serde::{Deserialize, Serialize};
+use serde_json::json;
+use std::sync::atomic::{AtomicU64, AtomicUsize, Ordering};
+use std::sync::{Arc, Mutex};
+
+#[derive(Clone, Debug, Serialize, Deserialize, PartialEq, Eq)]
+pub enum TOp
+{
+    /// clone the worker's newest clone of signal `s` (no-op if it holds none)
+    Clone(u8),
+    /// drop the worker's newest clone of signal `s`
+    Drop(u8),
+    Yield,
+}
+
+#[derive(Clone, Debug, Serialize, Deserialize, PartialEq, Eq)]
+pub enum MOp
+{
+    Gc,
+    /// clone / drop on the main thread (the main thread may hold clones too)
+    Clone(u8),
+    Drop(u8),
+    /// manual despawn of entity `e`
+    Despawn(u8),
+    Yield,
+}
+
+#[derive(Clone, Debug, Serialize, Deserialize, PartialEq, Eq, Default)]
+pub struct TProg
+{
+    /// parent of entity i (must be < i)
+    pub parents: Vec<Option<u8>>,
+    /// signal s guards entity `sig_ent[s]`
+    pub sig_ent: Vec<u8>,
+    /// initial clones: (signal, holder) where holder 0 = main, k = worker k-1
+    pub initial: Vec<(u8, u8)>,
+    pub workers: Vec<Vec<TOp>>,
+    pub main: Vec<MOp>,
+}
+
+pub fn gen_tprog(seed: u64) -> TProg
+{
+    let mut r = Rng::new(seed);
+    let nent = r.range(1, 4) as usize;
+    let mut p = TProg::default();
+    for i in 0..nent { p.parents.push(if i > 0 && r.chance(60) { Some(r.below(i as u64) as u8) } else { None }); }
+    let nsig = r.range(1, 2) as usize;
+    for _ in 0..nsig { p.sig_ent.push(r.below(nent as u64) as u8); }
+    let nworkers = r.range(1, 3) as usize;
+    p.workers = vec![Vec::new(); nworkers];
+    let style = r.below(3);
+    for s in 0..nsig as u8
+    {
+        if style == 0 && nworkers >= 2
+        {
+            // the shape that exposes racy "last one out" logic: exactly two clones, dropped on different threads
+            p.initial.push((s, 1));
+            p.initial.push((s, 2));
+            p.workers[0].push(TOp::Drop(s));
+            p.workers[1].push(TOp::Drop(s));
+        }
+        else
+        {
+            let n = r.range(1, 3);
+            for _ in 0..n { p.initial.push((s, r.below(nworkers as u64 + 1) as u8)); }
+        }
+    }
+    for w in 0..nworkers
+    {
+        let n = r.range(0, 4);
+        for _ in 0..n
+        {
+            let s = r.below(nsig as u64) as u8;
+            let op = match r.below(6) { 0 | 1 => TOp::Clone(s), 2 | 3 | 4 => TOp::Drop(s), _ => TOp::Yield };
+            let at = r.below(p.workers[w].len() as u64 + 1) as usize;
+            p.workers[w].insert(at, op);
+        }
+        // a worker drops everything it still holds when it ends (closure state), so every history terminates
+    }
+    let n = r.range(1, 5);
+    for _ in 0..n
+    {
+        let s = r.below(nsig as u64) as u8;
+        p.main.push(match r.below(10) { 0..=4 => MOp::Gc, 5 => MOp::Clone(s), 6 | 7 => MOp::Drop(s), 8 => MOp::Despawn(r.below(nent as u64) as u8), _ => MOp::Yield });
+    }
+    p
+}
+
+#[derive(Default)]
+struct Hist
+{
+    /// per clone object: (signal, created seq, drop invoke seq, drop return seq)
+    clones: Vec<(u8, u64, Option<u64>, Option<u64>)>,
+}
+
+struct Shared
+{
+    seq: AtomicU64,
+    hist: Mutex<Hist>,
+}
+
+impl Shared
+{
+    fn tick(&self) -> u64 { self.seq.fetch_add(1, Ordering::SeqCst) + 1 }
+    fn created(&self, s: u8) -> usize { let t = self.tick(); let mut h = self.hist.lock().unwrap(); h.clones.push((s, t, None, None)); h.clones.len() - 1 }
+    fn drop_invoke(&self, id: usize) { let t = self.tick(); self.hist.lock().unwrap().clones[id].2 = Some(t); }
+    fn drop_return(&self, id: usize) { let t = self.tick(); self.hist.lock().unwrap().clones[id].3 = Some(t); }
+}
+
+fn yield_hook() { shuttle::thread::yield_now(); }
+
+struct Held { sig: AutoDespawnSignal, id: usize }
+
+fn drop_held(sh: &Shared, h: Held)
+{
+    sh.drop_invoke(h.id);
+    drop(h.sig);
+    sh.drop_return(h.id);
+}
+
+#[derive(Default)]
+pub struct TStats
+{
+    pub executions: AtomicUsize,
+    pub gc_with_drop_in_flight: AtomicUsize,
+    pub two_final_drops_concurrent: AtomicUsize,
+    pub collected_by_gc: AtomicUsize,
+    pub outcomes: Mutex<std::collections::HashSet<u64>>,
+}
+
+/// One execution of the scenario under the current shuttle schedule. Panics on a violation.
+fn scenario(p: &TProg, stats: &TStats)
+{
+    bevy_cobweb::verif::set_yield_hook(Some(yield_hook));
+    let mut app = App::new();
+    app.add_plugins(ReactPlugin);
+    let world = app.world_mut();
+    let nent = p.parents.len();
+    let ents: Vec<Entity> = (0..nent).map(|_| world.spawn_empty().id()).collect();
+    for (i, par) in p.parents.iter().enumerate() { if let Some(par) = par { world.entity_mut(ents[*par as usize]).add_child(ents[i]); } }
+    let sh = Arc::new(Shared { seq: AtomicU64::new(0), hist: Mutex::new(Hist::default()) });
+    let nsig = p.sig_ent.len();
+    // initial clones: first holder gets the prepared signal, others get clones
+    let mut main_held: Vec<Vec<Held>> = (0..nsig).map(|_| Vec::new()).collect();
+    let mut worker_held: Vec<Vec<Vec<Held>>> = p.workers.iter().map(|_| (0..nsig).map(|_| Vec::new()).collect()).collect();
+    let mut roots: Vec<Option<AutoDespawnSignal>> = (0..nsig).map(|_| None).collect();
+    for (s, holder) in &p.initial
+    {
+        let si = *s as usize;
+        let sig = match &roots[si]
+        {
+            None => { let g = world.resource::<AutoDespawner>().prepare(ents[p.sig_ent[si] as usize]); roots[si] = Some(g.clone()); g }
+            Some(g) => g.clone(),
+        };
+        let id = sh.created(*s);
+        let held = Held { sig, id };
+        if *holder == 0 { main_held[si].push(held); } else { worker_held[(*holder as usize - 1).min(p.workers.len() - 1)][si].push(held); }
+    }
+    // the template clones used for setup are dropped before anything runs, on the main thread
+    for (si, r) in roots.into_iter().enumerate() { if let Some(g) = r { let id = sh.created(si as u8); drop_held(&sh, Held { sig: g, id }); } }
+
+    let mut handles = Vec::new();
+    for (w, ops) in p.workers.iter().enumerate()
+    {
+        let ops = ops.clone();
+        let sh = sh.clone();
+        let mut held = std::mem::take(&mut worker_held[w]);
+        handles.push(shuttle::thread::spawn(move ||
+        {
+            for op in ops
+            {
+                match op
+                {
+                    TOp::Clone(s) => { if let Some(h) = held[s as usize].last() { let c = h.sig.clone(); let id = sh.created(s); held[s as usize].push(Held { sig: c, id }); } }
+                    TOp::Drop(s) => { if let Some(h) = held[s as usize].pop() { drop_held(&sh, h); } }
+                    TOp::Yield => shuttle::thread::yield_now(),
+                }
+            }
+            for v in held.into_iter() { for h in v.into_iter().rev() { drop_held(&sh, h); } }
+        }));
+    }
+
+    let mut manual: Vec<bool> = vec![false; nent];
+    let alive_now = |world: &World| -> Vec<bool> { ents.iter().map(|e| world.get_entity(*e).is_ok()).collect() };
+    let ancestors = |i: usize| -> Vec<usize> { let mut v = Vec::new(); let mut c = p.parents[i]; while let Some(x) = c { v.push(x as usize); c = p.parents[x as usize]; } v };
+    let check_gc = |world: &World, gi: u64, gr: u64, manual: &Vec<bool>, last: bool|
+    {
+        let alive = alive_now(world);
+        let h = sh.hist.lock().unwrap();
+        // per entity: is it guarded, and what do the histories of its signals say
+        let mut must_dead = vec![false; nent];
+        let mut may_dead = vec![false; nent];
+        for s in 0..nsig
+        {
+            let e = p.sig_ent[s] as usize;
+            let clones: Vec<_> = h.clones.iter().filter(|c| c.0 as usize == s).collect();
+            if clones.is_empty() { continue; }
+            let all_returned_before = clones.iter().all(|c| matches!(c.3, Some(t) if t < gi));
+            let some_drop_started_before_return = clones.iter().all(|c| matches!(c.2, Some(t) if t < gr));
+            if all_returned_before { must_dead[e] = true; }
+            if some_drop_started_before_return { may_dead[e] = true; }
+            if !all_returned_before && some_drop_started_before_return { stats.gc_with_drop_in_flight.fetch_add(1, Ordering::Relaxed); }
+        }
+        for i in 0..nent
+        {
+            let anc = ancestors(i);
+            let gone_by_design = manual[i] || anc.iter().any(|a| manual[*a]);
+            // a collected ancestor takes its descendants with it, unless a manual (non-recursive) despawn cut the chain
+            let mut must = must_dead[i] && !manual[i];
+            let mut cut = manual[i];
+            for a in &anc { if manual[*a] { cut = true; } if !cut && must_dead[*a] { must = true; } }
+            let may = may_dead[i] || anc.iter().any(|a| may_dead[*a]);
+            if must && alive[i]
+            {
+                panic!("autodespawn-leak: entity {i} survived a garbage collection although every clone of its signal (or an ancestor's) had been dropped before the collection started{}", if last { " (final collection)" } else { "" });
+            }
+            if !alive[i] && !gone_by_design && !may
+            {
+                panic!("premature-autodespawn: entity {i} was despawned by a garbage collection while a clone of its signal (and of every ancestor's) still exists");
+            }
+            if !alive[i] && must { stats.collected_by_gc.fetch_add(1, Ordering::Relaxed); }
+        }
+    };
+
+    for op in &p.main
+    {
+        match op
+        {
+            MOp::Gc =>
+            {
+                let gi = sh.tick();
+                garbage_collect_entities(world);
+                let gr = sh.tick();
+                check_gc(world, gi, gr, &manual, false);
+                // idempotence: a second collection right away changes nothing unless more drops landed
+            }
+            MOp::Clone(s) => { if let Some(h) = main_held[*s as usize].last() { let c = h.sig.clone(); let id = sh.created(*s); main_held[*s as usize].push(Held { sig: c, id }); } }
+            MOp::Drop(s) => { if let Some(h) = main_held[*s as usize].pop() { drop_held(&sh, h); } }
+            MOp::Despawn(e) =>
+            {
+                let i = *e as usize;
+                if world.get_entity(ents[i]).is_ok() { world.despawn(ents[i]); }
+                manual[i] = true;
+            }
+            MOp::Yield => shuttle::thread::yield_now(),
+        }
+    }
+    for h in handles { h.join().unwrap(); }
+    for v in main_held.into_iter() { for h in v.into_iter().rev() { drop_held(&sh, h); } }
+    // everything is dropped now: one collection must remove every guarded entity with its descendants; a second one is a no-op
+    let gi = sh.tick();
+    garbage_collect_entities(world);
+    let gr = sh.tick();
+    check_gc(world, gi, gr, &manual, true);
+    let before = alive_now(world);
+    garbage_collect_entities(world);
+    if alive_now(world) != before { panic!("gc-not-idempotent: a second garbage collection changed the world"); }
+    // probes
+    {
+        let h = sh.hist.lock().unwrap();
+        for s in 0..nsig
+        {
+            let mut last: Vec<_> = h.clones.iter().filter(|c| c.0 as usize == s).collect();
+            last.sort_by_key(|c| c.3);
+            if last.len() >= 2
+            {
+                let (a, b) = (last[last.len() - 2], last[last.len() - 1]);
+                if let (Some(bi), Some(ar)) = (b.2, a.3) { if bi < ar { stats.two_final_drops_concurrent.fetch_add(1, Ordering::Relaxed); } }
+            }
+        }
+        let mut hh = std::collections::hash_map::DefaultHasher::new();
+        use std::hash::{Hash, Hasher};
+        for c in &h.clones { c.hash(&mut hh); }
+        before.hash(&mut hh);
+        stats.outcomes.lock().unwrap().insert(hh.finish());
+    }
+    stats.executions.fetch_add(1, Ordering::Relaxed);
+    bevy_cobweb::verif::set_yield_hook(None);
+}
+
+#[derive(Serialize, Deserialize)]
+struct TReplay { version: u32, property: String, rule: String, message: String, verif_seed: u64, program_seed: u64, tprog: TProg, schedule: String, program: Program }
+
+fn run_shuttle(p: &TProg, seed: u64, iterations: usize, stats: Arc<TStats>, persist_dir: &std::path::Path) -> Result<(), (String, Option<String>)>
+{
+    let mut cfg = shuttle::Config::new();
+    cfg.stack_size = 1 << 20;
+    cfg.failure_persistence = shuttle::FailurePersistence::File(Some(persist_dir.to_path_buf()));
+    let sched = shuttle::scheduler::RandomScheduler::new_from_seed(seed, iterations);
+    let p2 = p.clone();
+    let st = stats.clone();
+    crate::obs::set_quiet(true);
+    let r = std::panic::catch_unwind(std::panic::AssertUnwindSafe(move || { shuttle::Runner::new(sched, cfg).run(move || scenario(&p2, &st)); }));
+    crate::obs::set_quiet(false);
+    bevy_cobweb::verif::set_yield_hook(None);
+    match r
+    {
+        Ok(()) => Ok(()),
+        Err(e) =>
+        {
+            let msg = e.downcast_ref::<String>().cloned().or_else(|| e.downcast_ref::<&str>().map(|s| s.to_string())).unwrap_or_else(|| "panic".into());
+            // newest schedule file in the directory
+            let mut sched = None;
+            if let Ok(rd) = std::fs::read_dir(persist_dir)
+            {
+                let mut files: Vec<_> = rd.flatten().filter(|f| f.file_name().to_string_lossy().starts_with("schedule")).collect();
+                files.sort_by_key(|f| f.metadata().and_then(|m| m.modified()).ok());
+                if let Some(f) = files.last() { sched = std::fs::read_to_string(f.path()).ok(); let _ = std::fs::remove_file(f.path()); }
+            }
+            Err((msg, sched))
+        }
+    }
+}
+
+pub fn explore(vseed: u64, executions: usize, dir: &std::path::Path) -> (serde_json::Value, Vec<(String, String)>)
+{
+    let t0 = std::time::Instant::now();
+    let per_prog = 60usize;
+    let nprogs = (executions / per_prog).max(1);
+    let threads = std::thread::available_parallelism().map(|n| n.get()).unwrap_or(8).min(16);
+    let stats = Arc::new(TStats::default());
+    let found: Arc<Mutex<Vec<(u64, u64, TProg, String, Option<String>)>>> = Arc::new(Mutex::new(Vec::new()));
+    let tmp = std::env::temp_dir().join(format!("cobsim-shuttle-{}", std::process::id()));
+    let _ = std::fs::create_dir_all(&tmp);
+    let mut hs = Vec::new();
+    for t in 0..threads
+    {
+        let stats = stats.clone();
+        let found = found.clone();
+        let tmp = tmp.join(format!("w{t}"));
+        let _ = std::fs::create_dir_all(&tmp);
+        hs.push(std::thread::Builder::new().stack_size(64 << 20).spawn(move ||
+        {
+            let mut i = t;
+            while i < nprogs
+            {
+                let pseed = crate::gen::mix(crate::gen::mix(vseed, 0xC10), i as u64);
+                let p = gen_tprog(pseed);
+                if let Err((msg, sched)) = run_shuttle(&p, pseed, per_prog, stats.clone(), &tmp)
+                {
+                    let mut f = found.lock().unwrap();
+                    if f.len() < 8 { f.push((i as u64, pseed, p, msg, sched)); }
+                }
+                i += threads;
+            }
+        }).unwrap());
+    }
+    for h in hs { let _ = h.join(); }
+    let _ = std::fs::remove_dir_all(&tmp);
+    let mut found = std::mem::take(&mut *found.lock().unwrap());
+    found.sort_by_key(|f| f.0);
+    let mut out = Vec::new();
+    if let Some((idx, pseed, p, msg, sched)) = found.first()
+    {
+        let rule = msg.split(':').next().unwrap_or("thread-scenario").to_string();
+        let rdir = dir.join("replays");
+        let _ = std::fs::create_dir_all(&rdir);
+        let path = rdir.join(format!("C10-threads-{vseed}-{idx}.json"));
+        let rf = TReplay { version: 1, property: "C10".into(), rule, message: msg.clone(), verif_seed: vseed, program_seed: *pseed, tprog: p.clone(), schedule: sched.clone().unwrap_or_default(), program: Program::default() };
+        let _ = std::fs::write(&path, serde_json::to_string_pretty(&rf).unwrap());
+        out.push((msg.clone(), path.display().to_string()));
+    }
+    let wall = t0.elapsed().as_secs_f64();
+    let execs = stats.executions.load(Ordering::Relaxed);
+    let cov = json!({
+        "scheduler": "shuttle RandomScheduler (seeded); yield points: harness ops + cfg-gated hooks in auto_despawn.rs (Arc clone/drop/strong_count, before send, inside the collection loop)",
+        "programs": nprogs, "schedules_per_program": per_prog, "executions_completed": execs,
+        "executions_per_hour": (execs as f64 / wall.max(0.001) * 3600.0) as u64,
+        "distinct_histories": stats.outcomes.lock().unwrap().len(),
+        "probe_gc_while_a_drop_is_in_flight": stats.gc_with_drop_in_flight.load(Ordering::Relaxed),
+        "probe_two_final_drops_concurrent": stats.two_final_drops_concurrent.load(Ordering::Relaxed),
+        "entities_collected_by_gc": stats.collected_by_gc.load(Ordering::Relaxed),
+        "violations": found.len(),
+        "sample_program": serde_json::to_value(gen_tprog(crate::gen::mix(crate::gen::mix(vseed, 0xC10), 0))).unwrap(),
+    });
+    (cov, out)
+}
+
+pub fn replay(_p: &Program, _schedule: &str, path: &str) -> i32
+{
+    let txt = match std::fs::read_to_string(path) { Ok(t) => t, Err(e) => { eprintln!("cannot read {path}: {e}"); return 2; } };
+    let rf: TReplay = match serde_json::from_str(&txt) { Ok(r) => r, Err(e) => { eprintln!("bad thread replay file: {e}"); return 2; } };
+    let stats = Arc::new(TStats::default());
+    let p = rf.tprog.clone();
+    let sched = rf.schedule.clone();
+    crate::obs::set_quiet(true);
+    let r = std::panic::catch_unwind(std::panic::AssertUnwindSafe(move || { shuttle::replay(move || scenario(&p, &stats), &sched); }));
+    crate::obs::set_quiet(false);
+    match r
+    {
+        Err(e) =>
+        {
+            let msg = e.downcast_ref::<String>().cloned().or_else(|| e.downcast_ref::<&str>().map(|s| s.to_string())).unwrap_or_else(|| "panic".into());
+            println!("reproduced: {msg}");
+            println!("VIOLATION property=C10 replay={path}");
+            1
+        }
+        Ok(()) => { println!("replay did not reproduce the thread-scenario violation"); 0 }
+    }
+}
